@@ -145,8 +145,7 @@ class ExecutorModel:
         paths: List[Path] = []
         exe = self.ix.func(EXECUTOR_MOD + ':_PartialExecutor.execute')
         for obj, s in objs:
-            # events of the constructor are not part of the protocol
-            s.trace = []
+            # events of the constructor are kept: an effect there would precede all validation
             paths.extend(self.interp.run_function(exe, st=s, recv=obj))
         for p in paths:
             self.traces.append(self._abstract(p))
@@ -189,6 +188,12 @@ class ExecutorModel:
                     steps.append(Step('marker', name='ATC_EXECUTOR', event=e))
                 elif cd in (h.final_pass, h.final_fail):
                     steps.append(Step('terminal', name='PASS' if cd == h.final_pass else 'FAIL', event=e, args=args))
+                elif cd is None or not isinstance(cd, (FuncDef, ClassDef)):
+                    cv = e.data.get('callee_val')
+                    if isinstance(cv, Sym) and cv.origin and cv.origin[0] == 'attr' \
+                            and cv.origin[2] == 'sds_root_dir_resolver':
+                        # resolving the sandbox root directory name creates the directory (mkdtemp)
+                        steps.append(Step('marker', name='SANDBOX_ROOT', event=e))
             elif e.kind == 'raised':
                 ec, ev_idx = e.data
                 if ev_idx in idx_to_step:
